@@ -352,6 +352,12 @@ def gen_enc_case(rng, malformed=False):
             for n in notes:
                 if rng.random() < 0.5:
                     n[2] -= rng.choice([0.5, 3, 40]) / fps
+                    if rng.random() < 0.4:
+                        # the whole note before time 0: a negative END frame is the one way left to the numpy
+                        # broadcast ValueError of the weights slice (negative slice bound wraps, list is empty)
+                        n[3] = n[2] + rng.choice([0, 0.5, 2]) / fps
+                        if n[3] < 0:
+                            hist.add('mal:note-ends-before-0')
             kw['onset_delay_ms'] = rng.choice([-5000 / fps, -100000 / fps, 0.0])
             hist.add('mal:negative-times')
         elif u < 0.9:
@@ -532,15 +538,14 @@ def oracle_enc(sl, case):
         return None
     inrange = [n for n in notes if minp <= n[0] <= maxp]
     expect_err = kw['onset_mode'] not in MODES and inrange or any(v > kw['max_velocity'] for _, v, _, _ in inrange)
-    # outside the property (neither parameter is in its statement or quantifier): exceptions raised for the
-    # combination add_blank_frame_before_onset ∧ ¬onset_overlap are not judged (F-C18-3, see meta/C18.json)
-    unjudged = kw['add_blank_frame_before_onset'] and not kw['onset_overlap']
+    # every exception on a well-formed input is a failure, whatever the configuration (F-C18-2/3/4 were such
+    # crashes); the only exceptions the statement allows are the two documented ValueErrors
     try:
         pr = enc_call(sl, case)
     except ValueError as e:
-        return None if expect_err or unjudged else 'ValueError on a well-formed input: %s' % e
+        return None if expect_err else 'ValueError on a well-formed input: %s' % e
     except Exception as e:  # pylint: disable=broad-except
-        return None if unjudged else 'unexpected %s on a well-formed input: %s' % (type(e).__name__, e)
+        return 'unexpected %s on a well-formed input: %s' % (type(e).__name__, e)
     if expect_err:
         return 'no ValueError although a velocity exceeds max_velocity / the onset mode is unknown'
     rows, cols = pr.active.shape
@@ -651,6 +656,10 @@ def spec_segments(case):
     return segs
 
 
+def _pow2(q):
+    return q > 0 and q.numerator & (q.numerator - 1) == 0 and q.denominator & (q.denominator - 1) == 0
+
+
 def oracle_dec(sl, case):
     kw = dec_kw(case)
     if not case['frames'] or not case['fps'] or case['w'] > 128 or case['fps'] < 0:
@@ -662,6 +671,10 @@ def oracle_dec(sl, case):
     fps = F(case['fps'])
     n = len(case['frames'])
     mind = F(kw['min_duration_ms'])
+    # "drops only notes shorter than min_duration_ms": judged exactly whenever the frame length 1/fps is a binary
+    # fraction (8/16/32 fps: every float operation of the duration test is exact); at the other rates a run whose
+    # exact length is within 1e-12 (relative) of the threshold is left to float rounding
+    tol = F(0) if _pow2(fps) else F(1, 10**12)
     segs = spec_segments(case)
     got = {}
     for nt in ns.notes:
@@ -676,10 +689,10 @@ def oracle_dec(sl, case):
     for c, s, e, onf in segs:
         dur = F(e - s) / fps * 1000
         present = (c, s, e) in got
-        if dur >= mind * (1 + F(1, 10**12)) + F(1, 10**12) and not present:
-            return 'run pitch %d frames [%d,%d) has no note' % (c, s, e)
-        if dur < mind * (1 - F(1, 10**12)) - F(1, 10**12) and present:
-            return 'run pitch %d frames [%d,%d) shorter than min_duration_ms kept' % (c, s, e)
+        if dur >= mind * (1 + tol) + tol and not present:
+            return 'run pitch %d frames [%d,%d) (%s ms) has no note, min_duration_ms = %r' % (c, s, e, float(dur), kw['min_duration_ms'])
+        if dur < mind * (1 - tol) - tol and present:
+            return 'run pitch %d frames [%d,%d) (%s ms) shorter than min_duration_ms = %r kept' % (c, s, e, float(dur), kw['min_duration_ms'])
         if present:
             nt = got.pop((c, s, e))
             if onf is not None and case.get('vels') is not None:
@@ -796,9 +809,9 @@ IMPL = {'enc': enc_impl, 'dec': dec_impl, 'ons': ons_impl}
 
 
 # ----------------------------------------------------------------------------- run
-P, E, FL, DC = ('NoteSeqVerif.Props.C18', 'NoteSeqVerif.Proofs.C18Enc', 'NoteSeqVerif.Proofs.C18Float',
-                 'NoteSeqVerif.Proofs.C18Dec')
-MODULES = [FL, E, DC, P]
+P, E, FL, DC, EC = ('NoteSeqVerif.Props.C18', 'NoteSeqVerif.Proofs.C18Enc', 'NoteSeqVerif.Proofs.C18Float',
+                     'NoteSeqVerif.Proofs.C18Dec', 'NoteSeqVerif.Proofs.C18EncC')
+MODULES = [FL, E, EC, DC, P]
 THEOREMS = [
     # float layer: no drift for every rounding operator with the IEEE properties, every fps > 0, k < 2^31
     (FL, 'NSV.C18.rounding_id'), (FL, 'NSV.C18.grid_near'), (FL, 'NSV.C18.timeToFrames_grid'),
@@ -808,6 +821,11 @@ THEOREMS = [
     (P, 'NSV.C18.noteFrames_length'), (P, 'NSV.C18.enc_onset_cell'), (P, 'NSV.C18.enc_velocity_cell'),
     (P, 'NSV.C18.velocity_scaled_range'), (P, 'NSV.C18.roll_length'), (P, 'NSV.C18.encode_ok_valid'),
     (P, 'NSV.C18.encode_unknown_mode'),
+    # encoder, continued: no exception on well-formed input (the converse of the two rejections; F-C18-2/3/4 were
+    # counterexamples), per-note weights step, offsets / weights / control-change rolls cell by cell, remaining sizes
+    (EC, 'NSV.C18.paintNote_defined'), (EC, 'NSV.C18.paintNote_weights_cell'), (P, 'NSV.C18.encode_defined'),
+    (P, 'NSV.C18.enc_offset_cell'), (P, 'NSV.C18.enc_weights_cell'), (P, 'NSV.C18.enc_cc_cell'),
+    (P, 'NSV.C18.roll_size'),
     # decoder: per-pitch decomposition, run decoding, onset-aware decoding, emission order
     (DC, 'NSV.C18.scan_column'), (DC, 'NSV.C18.colScan_runs'), (DC, 'NSV.C18.colScan_onsets'),
     (DC, 'NSV.C18.scan_sorted'), (DC, 'NSV.C18.maxRun_of_separated'),
